@@ -1,3 +1,4 @@
+import RsyncModel.PureTie
 import RsyncModel.FlistThm
 import RsyncModel.RoundTrip
 /-! # C15 — the wire format conforms to rsync protocol 27
@@ -69,5 +70,15 @@ example : Chain ⟨false, false, false, false, false, false⟩ zeroEntry
     by decide, by decide, by decide, by decide,
     ⟨⟨by decide, by decide, by decide, by decide, by decide, by decide, by decide, by decide, by decide, by decide, by decide⟩,
      by decide, by decide, by decide, by decide, trivial⟩⟩
+
+
+/-! ### Tie to the source (regenerated translation `Gen.Pure`) -/
+
+/-- `WriteInt64` (both the connection's and the buffer's) sends 32 bits exactly when the model's
+`encLong` does: the condition is translated from /repo on every run -/
+theorem source_long_threshold (v : Int64) :
+    Gen.Pure.int64Short v.toInt false = decide (0 ≤ v ∧ v ≤ 0x7FFFFFFF) ∧
+    Gen.Pure.int64ShortBuf v.toInt false = Gen.Pure.int64Short v.toInt false :=
+  ⟨PureTie.int64Short_tied v, PureTie.int64ShortBuf_tied v.toInt⟩
 
 end C15
